@@ -44,6 +44,7 @@ type fixture struct {
 	endBin    []byte
 	end2      *epb.VMLaunchEndorsement // endorses mC only
 	forgedBin []byte
+	endTdx    *epb.VMLaunchEndorsement // endorses mA for SNP (2 VMSAs) and as MRTD
 	authNow   *fx.Authority
 	endNowBin []byte
 	end2Bin   []byte
@@ -225,6 +226,24 @@ func scenarios() []scenario {
 				{{"B", func() error { return gcetcbendorsement.SevValidate(ctx, attB(f.endBin), so) }, "error"}},
 			}, func() string { return "" }
 		}},
+		{"TdxValidate-shared-options/A|B", func(f *fixture, pt func(string)) ([][]call, func() string) {
+			to := &gcetcbendorsement.TdxValidateOptions{RootsOfTrust: f.auth.Roots(), Now: f.now, Endorsement: f.endTdx}
+			return [][]call{
+					{{"A", func() error { return gcetcbendorsement.TdxValidate(ctx, att.TdxQuote(mA), to) }, "nil"}},
+					{{"B", func() error { return gcetcbendorsement.TdxValidate(ctx, att.TdxQuote(mB), to) }, "error"}},
+				}, func() string {
+					return fmt.Sprintf("now=%d ram=%d overwrite=%v base=%v endorsement=%v", to.Now.UnixNano(), to.ExpectedRAMGiB, to.Overwrite, to.BasePolicy != nil, to.Endorsement != nil)
+				}
+		}},
+		{"TdxValidate+SevValidate-one-endorsement/A|B", func(f *fixture, pt func(string)) ([][]call, func() string) {
+			to := &gcetcbendorsement.TdxValidateOptions{RootsOfTrust: f.auth.Roots(), Now: f.now, Endorsement: f.endTdx}
+			so := &gcetcbendorsement.SevValidateOptions{RootsOfTrust: f.auth.Roots(), Now: f.now, Endorsement: f.endTdx,
+				BasePolicy: &cpb.Policy{MinimumVersion: "0.0", Policy: prodPolicy}}
+			return [][]call{
+				{{"tdxB", func() error { return gcetcbendorsement.TdxValidate(ctx, att.TdxQuote(mB), to) }, "error"}},
+				{{"sevA", func() error { return gcetcbendorsement.SevValidate(ctx, attA(nil), so) }, "nil"}},
+			}, func() string { return "" }
+		}},
 		{"SevValidate-shared-options-preset-endorsement/A|B", func(f *fixture, pt func(string)) ([][]call, func() string) {
 			so := &gcetcbendorsement.SevValidateOptions{RootsOfTrust: f.auth.Roots(), Now: f.now, Endorsement: f.end,
 				BasePolicy: &cpb.Policy{MinimumVersion: "0.0", Policy: prodPolicy}}
@@ -288,6 +307,14 @@ func buildFixture(tag string) *fixture {
 			mc.Fatal("%v", err)
 		}
 		f.endNowBin, _ = proto.Marshal(en)
+	}
+	{
+		// one endorsement with both technologies: SNP measurement mA and one TDX row with MRTD mA
+		gt := att.Golden(map[uint32][]byte{2: mA}, nil, true, []att.TdxRow{{0, false, mA}}, true, fx.T0)
+		f.endTdx, err = auth.SignGolden(gt, fx.T0)
+		if err != nil {
+			mc.Fatal("%v", err)
+		}
 	}
 	g2 := att.Golden(map[uint32][]byte{2: mC}, nil, true, nil, false, fx.T0)
 	f.end2, _ = auth.SignGolden(g2, fx.T0)
